@@ -308,8 +308,6 @@ def excluded_reason(m):
         return "not_unicode"  # lone surrogates are not Unicode text
     if not m["nfkc"]:
         return "nfkc_ident"  # F37/F1: Python NFKC-normalises identifiers of the generated code
-    if m["loopctl_outside"] and m["env"] == "ext":
-        return "loopctl_outside"  # F38: break/continue outside a loop of the same generated function
     if m["block"] >= MAX_BLOCK_DEPTH or m["fors"] >= MAX_FOR_WORDS:
         return "block_depth"  # F2: CPython's static nesting limits
     if m["expr"] >= MAX_EXPR_DEPTH or m["chain"] >= MAX_CHAIN:
